@@ -167,6 +167,10 @@ func c17Boundary() []float64 {
 }
 
 func c17Judge(c *Ctx, cs *Case) {
+	if cs.Gen == "repl-after-misuse" {
+		c20Judge(c, cs)
+		return
+	}
 	c.Begin(cs)
 	switch cs.Gen {
 	case "numeric-batches", "numeric-batches-cli", "pow-batches":
@@ -237,12 +241,13 @@ func c17Clock(c *Ctx, cs *Case) {
 
 func c17Run(c *Ctx) {
 	// 1. every built-in x 0..4 arguments x argument kinds
-	kinds := []string{"nil", True(), "2", "(-1.5)", `"s"`, `"16cm"`, "\"\u09e7\u09ec \u099f\u09be\u0995\u09be\"", "[]", "[1, 2]", "{}", "({k: 1})", "fq", B["abs"], "0", "[[3, 1, 2]]", "[[]]", "[[[7]]]", "(10 ** 400)"}
+	kinds := []string{"nil", True(), "2", "(-1.5)", `"s"`, `"16cm"`, "\"\u09e7\u09ec \u099f\u09be\u0995\u09be\"", "[]", "[1, 2]", "{}", "({k: 1})", "fq", B["abs"], "0", "[[3, 1, 2]]", "[[]]", "[[[7]]]", "(10 ** 400)", "cyc", "nd", "[1, nd, 3]", "[cyc]"}
 	var nicks []string
 	for _, n := range []string{"len", "append", "remove", "delete", "keys", "values", "abs", "sqrt", "pow", "sin", "cos", "tan", "min", "max", "round", "input", "clock"} {
 		nicks = append(nicks, n)
 	}
-	pre := Fun("fq", "", "") + "\n"
+	// cyc: an array that contains itself; nd: a node whose child points back at it
+	pre := Fun("fq", "", "") + "\n" + Var("cyc", "[0, 1]") + " cyc[0] = cyc; " + Var("nd", "{v: 1}") + " " + Var("kid", "{parent: nd}") + " nd.kid = kid;\n"
 	stdin := "in-one\nin-two\n"
 	r := c.Rand("kinds")
 	for _, fn := range nicks {
@@ -482,6 +487,13 @@ func c17Run(c *Ctx) {
 			c17Judge(c, &Case{Gen: "min-max-long-lists", Src: src, X: map[string]string{"fn": "minmax", "nargs": fmt.Sprint(n)}})
 		}
 	}
+	// 3f. interactive mode: after a line that misuses a built-in, later lines still compute
+	for _, bad := range []string{Print(BI("sqrt", `"x"`)), BI("abs") + ";", BI("pow", "1", "nil") + ";", Print(BI("max", "[]")), BI("len", "5") + ";"} {
+		lines := []string{Print(BI("sqrt", "16")), bad, Print(BI("sqrt", "16")), BI("abs", "-3") + ";", bad, BI("max", "1", "2") + ";", Print(BI("round", "2.5") + " + " + BI("pow", "2", "3"))}
+		if c.Mine() {
+			c17Judge(c, &Case{Gen: "repl-after-misuse", Src: strings.Join(lines, "\n"), X: map[string]string{"final_newline": "1", "all_self": "1"}})
+		}
+	}
 	// 4. clock: causal bracket around the child process
 	for k := 0; k < 3; k++ {
 		if c.Mine() {
@@ -498,7 +510,7 @@ func init() {
 		Run:         c17Run,
 		Judge:       c17Judge,
 		MustCount: func(c *Ctx) []string {
-			out := []string{"outcome:value", "outcome:fault", "results:abs", "results:sqrt", "results:sin", "results:cos", "results:tan", "results:round", "results:pow", "gen:min-max-permutations", "gen:nested-builtins", "gen:long-runs", "gen:builtins-as-values", "gen:min-max-long-lists", "clock_in_bracket", "cli_runs", "fault:Arity", "fault:BuiltinFailure"}
+			out := []string{"outcome:value", "outcome:fault", "results:abs", "results:sqrt", "results:sin", "results:cos", "results:tan", "results:round", "results:pow", "gen:min-max-permutations", "gen:nested-builtins", "gen:long-runs", "gen:builtins-as-values", "gen:repl-after-misuse", "gen:min-max-long-lists", "clock_in_bracket", "cli_runs", "fault:Arity", "fault:BuiltinFailure"}
 			return out
 		},
 	})
